@@ -326,49 +326,79 @@ def scan_nodes(v, V, cf, spec, which, ex, Tk, vals, rTol, paranoid, Tstart, flag
     once = set()
     for sub in ("node-branch", "node-exists", "node-hessian", "node-veff", "node-gradient"):
         v.checked(sub)
-    for k in range(n):
+    # ---- pass 1: same branch (coarse): closer to the branch than half way to the other phase; scanned
+    #      outwards from the start temperature so that the reported node is the one where the branch is left
+    i0 = int(np.argmin(np.abs(Tk - Tstart)))
+    order = list(range(i0, n)) + list(range(i0 - 1, -1, -1))
+    hops = []
+    blocked_up = blocked_dn = False
+    for k in order:
+        if (k >= i0 and blocked_up) or (k < i0 and blocked_dn):
+            continue
         T = Tk[k]
         phi = vals[k, :nf]
         ref, stt = sc.refs[k], sc.status[k]
-        # ---- same branch (coarse): closer to the branch than half way to the other phase ----------
-        if stt is not None:
-            dist = float(np.linalg.norm(phi - ref))
-            oth = cf.phase(other, T)
-            have_oth = bool(np.all(np.isfinite(oth))) and cf.exists(other, T) and np.linalg.norm(oth - ref) > 0
-            coarse = 0.5 * float(np.linalg.norm(oth - ref)) if have_oth else 0.5 * sc.Mk[k]
+        if stt is None:
+            continue
+        dist = float(np.linalg.norm(phi - ref))
+        oth = cf.phase(other, T)
+        have_oth = bool(np.all(np.isfinite(oth))) and cf.exists(other, T) and np.linalg.norm(oth - ref) > 0
+        coarse = 0.5 * float(np.linalg.norm(oth - ref)) if have_oth else 0.5 * sc.Mk[k]
+        if dist > coarse:
+            hops.append(k)
+            if k >= i0:
+                blocked_up = True
+            else:
+                blocked_dn = True
             beyond, bside = _beyond_true_end(ex, T)
-            if dist > coarse:
-                sc.hop_at = k
-                near = bside or _near_true_end(ex, T)
-                where = f"at-end={near}:true" if near else "inside-existence"
-                dother = float(np.linalg.norm(phi - oth)) if have_oth else float("nan")
-                v.fail("node-branch", _cls(spec, which, paranoid, f"{where} rTol={rTol:g}"),
-                       f"tabulated point {k}/{n} at T={T / s:.9g} (units {s:g}) is {dist / s:.4g} away from the "
-                       f"closed-form branch of the starting phase ({ref / s}); distance to the other phase "
-                       f"{dother / s:.3g}; previous node T={Tk[max(k - 1, 0)] / s:.9g}; table range "
-                       f"[{Tk[0] / s:.6g},{Tk[-1] / s:.6g}] {flags_txt}",
-                       T=T / s, phi=(phi / s).tolist(), ref=(ref / s).tolist())
-                break
+            near = bside or _near_true_end(ex, T)
+            if not near:  # the hop may have happened between two nodes that straddle the end
+                kp = k - 1 if k >= i0 else k + 1
+                if 0 <= kp < n:
+                    for side in ("lo", "hi"):
+                        X = ex[side]
+                        if ex[side + "_kind"] == "true" and min(T, Tk[kp]) <= X <= max(T, Tk[kp]):
+                            near = side
+            where = f"at-end={near}:true" if near else "inside-existence"
+            dother = float(np.linalg.norm(phi - oth)) if have_oth else float("nan")
+            v.fail("node-branch", _cls(spec, which, paranoid, f"{where} rTol={rTol:g}"),
+                   f"tabulated point {k}/{n} at T={T / s:.9g} (units {s:g}) is {dist / s:.4g} away from the "
+                   f"closed-form branch of the starting phase ({ref / s}); distance to the other phase "
+                   f"{dother / s:.3g}; neighbouring nodes T={Tk[max(k - 1, 0)] / s:.9g}, {Tk[min(k + 1, n - 1)] / s:.9g}; "
+                   f"table range [{Tk[0] / s:.6g},{Tk[-1] / s:.6g}] {flags_txt}",
+                   T=T / s, phi=(phi / s).tolist(), ref=(ref / s).tolist())
+    sc.hop_at = hops[0] if hops else None
+    k_lo = max([k + 1 for k in hops if k < i0], default=0)
+    k_hi = min([k for k in hops if k >= i0], default=n)
+    # ---- pass 2: pointwise oracles on the nodes that are on the branch ----------------------------
+    for k in range(k_lo, k_hi):
+        T = Tk[k]
+        phi = vals[k, :nf]
+        ref, stt = sc.refs[k], sc.status[k]
+        at_end = ""
+        if stt is not None:
+            beyond, bside = _beyond_true_end(ex, T)
+            near = bside or _near_true_end(ex, T)
+            at_end = f"at-end={near}:true" if near else ""
             # ---- tabulated only where the phase exists ----------------------------------------------
             if beyond > 0:
                 # backward window in T: the gradient tolerance divided by |d grad V/dT| at the end point
-                xe, _ = branch_point(cf, which, ex, T)
+                xe = ref
                 dgdT = float(np.linalg.norm((cf.grad(xe, ex[bside] * (1 + 1e-6)) - cf.grad(xe, ex[bside] * (1 - 1e-6)))
                                             / (2e-6 * ex[bside])))
                 back_k = max(back, K_TOL * rTol * sc.G / max(dgdT * ex[bside], 1e-300))
-            if beyond > 0 and beyond > back_k:
-                sc.hop_at = k
-                v.fail("node-exists", _cls(spec, which, paranoid, f"end={bside}:true rTol={rTol:g}"),
-                       f"tabulated abscissa T={T / s:.10g} lies beyond the true end {ex[bside] / s:.10g} of the "
-                       f"phase by {beyond:.3g} relative (> backward window {back_k:.2g}); fields {phi / s}",
-                       T=T / s)
-                break
+                if beyond > back_k and sc.hop_at is None and "exists" not in once:
+                    once.add("exists")
+                    v.fail("node-exists", _cls(spec, which, paranoid, f"end={bside}:true rTol={rTol:g}"),
+                           f"tabulated abscissa T={T / s:.10g} lies beyond the true end {ex[bside] / s:.10g} of the "
+                           f"phase by {beyond:.3g} relative (> backward window {back_k:.2g}); fields {phi / s}",
+                           T=T / s)
         # ---- Hessian at the tabulated point --------------------------------------------------------
         lam_tab = float(np.linalg.eigvalsh(cf.hess(phi, T))[0])
         noise = _fd_hess_noise(V, abs(vals[k, nf]))
         if lam_tab < -noise and "hess" not in once:
             once.add("hess")
-            v.fail("node-hessian", _cls(spec, which, paranoid),
+            v.fail("node-hessian", _cls(spec, which, paranoid, at_end),
                    f"closed-form Hessian at tabulated point T={T / s:.9g}, fields {phi / s} has smallest "
                    f"eigenvalue {lam_tab / s ** 2:.4g} < -noise {noise / s ** 2:.2g}: not a local minimum", T=T / s)
         # ---- V consistency ---------------------------------------------------------------------------
